@@ -44,11 +44,7 @@ STDLIB_AXIOMS_ALLOWED = {
     "ClassicalDedekindReals.sig_not_dec",
     "FunctionalExtensionality.functional_extensionality_dep",
     "Classical_Prop.classic",
-    "Eqdep.Eq_rect_eq.eq_rect_eq",
-    "JMeq.JMeq_eq",
-    "ProofIrrelevance.proof_irrelevance",
-    "PropExtensionality.propositional_extensionality",
-}
+}  # exactly the four the property theorems over the reals (C07, C14: Coquelicot / Reals) depend on; anything else fails the check
 
 
 def seed() -> int:
@@ -496,10 +492,16 @@ class Check:
                     in_ax = False
         n_pa = len(re.findall(r"Closed under the global context|Axioms:", out))
         self.notes["print_assumptions"] = {"theorems_checked": n_pa, "closed": closed, "axioms": sorted(axioms)}
-        bad = sorted(a for a in axioms if a not in STDLIB_AXIOMS_ALLOWED and not a.startswith(("Uint63.", "PrimInt63.", "PrimFloat.", "FloatAxioms.", "Float", "PArray", "Sint63")))
-        if bad or n_pa < len(names):
+        bad = sorted(a for a in axioms if a not in STDLIB_AXIOMS_ALLOWED)
+        # every theorem of the property files must be followed by ITS OWN `Print Assumptions <name>.`
+        printed = []
+        for props in files:
+            printed += re.findall(r"^\s*Print\s+Assumptions\s+([A-Za-z_][\w']*)\s*\.", re.sub(r"\(\*.*?\*\)", "", open(props).read(), flags=re.S), flags=re.M)
+        unprinted = sorted(set(names) - set(printed))
+        if bad or n_pa < len(names) or unprinted:
             self.proof_ok = False
-            self.broken.append({"where": f"Props/{self.pid}.v", "error": f"assumption check failed: non-stdlib axioms {bad}; Print Assumptions blocks {n_pa} < theorems {len(names)}"})
+            self.broken.append({"where": f"Props/{self.pid}.v", "error": f"assumption check failed: non-stdlib axioms {bad}; Print Assumptions blocks {n_pa} < theorems {len(names)}; "
+                                                                           f"theorems without their own Print Assumptions: {unprinted}"})
             self.coverage["discharged"] = 0
             return False
         self.proof_ok = True
